@@ -21,7 +21,7 @@ POOL = {
     # (-1 and -2 have the same Python hash: values that differ but collide)
     T_INT: [0, 1, -1, -2, 2, 3, -3, 7, 10, 100],
     T_DEC: [D('0'), D('0.0'), D('-1'), D('-2'), D('-1.5'), D('1.50'), D('2'), D('1E+2'), D('0.001'), D('1E-8'), D('123456.789'), D('3')],
-    T_STR: ['', 'a', 'b', 'A', ' ', '%', 'x1', 'ab', 'ba', 'a b', 'Ab%'],
+    T_STR: ['', 'a', 'b', 'A', ' ', '%', 'x1', 'ab', 'ba', 'a b', 'Ab%', 'Cafe\u0301', '\u00e9'],      # (a decomposed and a precomposed accent)
     T_DATE: [date(2020, 1, 1), date(2019, 12, 31), date(2020, 2, 29), date(2020, 3, 31), date(2000, 1, 1),
              date(1999, 12, 31), date(2020, 6, 30), date(2021, 10, 1), date(1900, 1, 1), date(2100, 12, 31)],
     T_BOOL: [True, False],
@@ -32,7 +32,7 @@ POOL = {
 LITS = {
     T_INT: [0, 1, 2, 3, 7, 10, -1, -3],
     T_DEC: [D('0.0'), D('1.50'), D('2.'), D('0.001'), D('-1.5'), D('3.0'), D('123456.789')],
-    T_STR: ['', 'a', 'b', 'A', ' ', '%', 'x1', 'ab', '^a', 'b$', 'a|b', '.', '2020-01-01', '1.50', '3'],
+    T_STR: ['', 'a', 'b', 'A', ' ', '%', 'x1', 'ab', '^a', 'b$', 'a|b', '.', '2020-01-01', '1.50', '3', 'Cafe\u0301', '\u00e9'],
     T_DATE: [date(2020, 1, 1), date(2020, 2, 29), date(2019, 12, 31), date(2000, 1, 1), date(2020, 3, 1)],
     T_BOOL: [True, False],
 }
